@@ -45,6 +45,14 @@ fn check_rep(ctx: &Ctx, q: &Qualifiers, m: &Model, what: &str) {
     if raw.windows(2).any(|w| w[0].0.as_str() >= w[1].0.as_str()) {
         ctx.violate("C11.sorted", "storage strictly ascending", json!(what), format!("{c:?}"), "ascending".into());
     }
+    // every key the collection holds can be indexed: `q[k]` panics only for an ABSENT qualifier (the documented panic of C06)
+    for (k, v) in &c {
+        match guarded(|| q[k.as_str()].clone()) {
+            Ok(got) if got.as_str() == v => {},
+            Ok(got) => ctx.violate("C11.index", "indexing returns the value; panics only when absent", json!({"after": what, "key": k}), format!("{got:?}"), format!("{v:?}")),
+            Err(p) => ctx.violate("C06.panic", "indexing panics only when the qualifier is absent (the documented panic)", json!({"after": what, "content": format!("{c:?}"), "key": k}), p, "no panic: the key is present".into()),
+        }
+    }
 }
 
 /// C11: every reachable content over a small universe x every public operation, against a BTreeMap
@@ -110,7 +118,10 @@ fn qualmap_explore(ctx: &Ctx, thorough: bool, keys: Vec<&str>, vals: Vec<&str>, 
                 match (idx, want) {
                     (Ok(v), Some(w)) if v.as_str() == w => {},
                     (Err(_), None) => {},   // documented panic: indexing an absent qualifier
-                    (o, w) => ctx.violate("C11.index", "indexing returns the value; panics only when absent", json!({"content": format!("{c:?}"), "key": k}), format!("{o:?}"), format!("{w:?}")),
+                    (o, w) => {
+                        if o.is_err() && w.is_some() { ctx.violate("C06.panic", "indexing panics only when the qualifier is absent (the documented panic)", json!({"content": format!("{c:?}"), "key": k}), format!("{o:?}"), "no panic: the key is present".into()); }
+                        ctx.violate("C11.index", "indexing returns the value; panics only when absent", json!({"content": format!("{c:?}"), "key": k}), format!("{o:?}"), format!("{w:?}"))
+                    },
                 }
             }
             // remove
@@ -205,6 +216,15 @@ fn qualmap_explore(ctx: &Ctx, thorough: bool, keys: Vec<&str>, vals: Vec<&str>, 
                         if rk.as_str() != lk || Some(rv.to_string()) != mv { ctx.violate("C11.entry", "remove_entry returns the stored pair", json!({"key": k}), format!("{rk:?} {rv:?}"), format!("{lk:?} {mv:?}")); }
                     }
                     check_rep(ctx, &q, &m, "remove_entry");
+                    // OccupiedEntry::remove: the value comes back, the rest keeps its order
+                    let mut q = build(&c);
+                    let mut m = m0.clone();
+                    if let Ok(Entry::Occupied(o)) = q.entry(*k) {
+                        let rv = o.remove();
+                        let mv = m.remove(&lk);
+                        if Some(rv.to_string()) != mv { ctx.violate("C11.entry", "OccupiedEntry::remove returns the stored value", json!({"key": k}), format!("{rv:?}"), format!("{mv:?}")); }
+                    }
+                    check_rep(ctx, &q, &m, "OccupiedEntry::remove");
                 }
                 // get_mut / index_mut / iter_mut
                 {
@@ -377,7 +397,7 @@ pub fn suite_builder(ctx: &Ctx, thorough: bool) {
     for s in strs { ops.push(Op::Ns(s)); ops.push(Op::Name(s)); ops.push(Op::Ver(s)); ops.push(Op::Sub(s)); }
     for t in ["t", "T+1", "bad type", ""] { ops.push(Op::Ty(t)); }
     for k in ["k", "K", "b.c", "bad key", ""] { for v in ["", "v", "a&b=c"] { ops.push(Op::Q(k, v)); } ops.push(Op::NoQ(k)); }
-    ops.push(Op::Q("checksum", "SHA1:AB")); ops.push(Op::Q("checksum", "sha1:xyz")); ops.push(Op::Q("checksum", "")); ops.push(Op::Q("CheckSum", ""));
+    ops.push(Op::Q("checksum", "SHA1:AB")); ops.push(Op::Q("checksum", "sha1:xyz")); ops.push(Op::Q("checksum", "sha1:0g")); ops.push(Op::Q("checksum", "sha1:abc")); ops.push(Op::Q("checksum", "")); ops.push(Op::Q("CheckSum", ""));
     ops.push(Op::NoQ("CHECKSUM"));
     ops.push(Op::TRepo("")); ops.push(Op::TRepo("u")); ops.push(Op::NoTRepo); ops.push(Op::TTag("t")); ops.push(Op::NoTTag); ops.push(Op::NoTBad);
     ops.push(Op::RawQ("r", "")); ops.push(Op::RawQ("K", "raw")); ops.push(Op::RawClear("k"));
